@@ -45,7 +45,7 @@ def Cases(tier):
 
 EXTRA = {}
 
-REQUIRED = ['fam_dup_disjuncts', 'fam_implication_conj', 'fam_partial_call_in_combine', 'fam_repeated_inject', 'fam_multi_disj_conj', 'fam_in_expr_repeated', 'fam_union_named_positional',
+REQUIRED = ['fam_nested_in', 'fam_record_pattern', 'fam_param_alias', 'fam_dup_disjuncts', 'fam_implication_conj', 'fam_partial_call_in_combine', 'fam_repeated_inject', 'fam_multi_disj_conj', 'fam_in_expr_repeated', 'fam_union_named_positional',
             'fam_if_chain', 'fam_repeated_call', 'fam_double_negation',
             'fam_bound_in_repeated', 'proggen', 'pg_disjunction', 'pg_in', 'pg_assign', 'pg_dup_fact',
             'pcall_repeated', 'disjunction_of_atoms', 'if_chain',
